@@ -542,14 +542,19 @@ def data_merge(*data, axis=0):
         all_idx = [set(list(i)) for i in data]
         idx = set.intersection(*all_idx)
         return type(data[0])(
-            {i: data_merge(*[data_i[i] for data_i in data]) for i in idx}
+            {
+                i: data_merge(*[data_i[i] for data_i in data], axis=axis)
+                for i in idx
+            }
         )
     if isinstance(data[0], list):
         assert all([isinstance(i, list) for i in data]), "not all type same"
-        return [data_merge(*data_i) for data_i in zip(*data)]
+        return [data_merge(*data_i, axis=axis) for data_i in zip(*data)]
     if isinstance(data[0], tuple):
         assert all([isinstance(i, tuple) for i in data]), "not all type same"
-        return tuple([data_merge(*data_i) for data_i in zip(*data)])
+        return tuple(
+            [data_merge(*data_i, axis=axis) for data_i in zip(*data)]
+        )
     m_data = tf.concat(data, axis=axis)
     return m_data
 
